@@ -21,13 +21,8 @@ inline void writeCells(State &S, const Val &dst, const std::vector<ByteCell> &ce
   eraseScalars(D, dlo, dhi + nMax);
   for (i128 i = 0; i < nMax; i++) {
     const ByteCell &c = cells[(size_t)i];
-    if (dlo == dhi) {
-      i128 o = dlo + i;
-      if (o >= (i128)D.bytes.size()) { joinCell(D.rest, c); continue; }
-      if (i < nStrong) D.bytes[(size_t)o] = c; else joinCell(D.bytes[(size_t)o], c);
-    } else {
-      for (i128 o = dlo + i; o <= dhi + i; o++) { if (o >= (i128)D.bytes.size()) { joinCell(D.rest, c); break; } if (o >= 0) joinCell(D.bytes[(size_t)o], c); }
-    }
+    if (dlo == dhi) { if (i < nStrong) D.setStrong(dlo + i, c); else D.join(dlo + i, c); }
+    else D.joinRange(dlo + i, dhi + i + 1, c);
   }
 }
 
